@@ -282,8 +282,14 @@ func (g *gen03) genStr03(allowBad bool) []byte {
 	n := g.strLen()
 	var b []byte
 	plain := r.chance(40)
+	dense := !plain && r.chance(12) // only bytes that need an escape: 2x..6x expansion, forces the quote loop to grow the buffer
+	if dense && n < 16 && r.chance(50) {
+		n = 64 + r.intn(200)
+	}
 	for len(b) < n {
 		switch {
+		case dense:
+			b = append(b, "\x00\x01\x1f\"\\\n\t\x08\x0c"[r.intn(9)])
 		case plain && r.chance(85):
 			b = append(b, byte('a'+r.intn(26)))
 		case allowBad && r.chance(3):
